@@ -54,7 +54,7 @@ func (r *vFaultyReader) Read(p []byte) (int, error) {
 func (r *vFaultyReader) Close() error { return nil }
 
 // vFaultyWriter records every Write and fails at the k-th call (1-based; 0 = never); a short
-// failure accepts half of the bytes and returns io.ErrShortWrite (a conforming io.Writer).
+// failure accepts three quarters of the bytes and returns io.ErrShortWrite (a conforming io.Writer).
 // Once failed it keeps failing (a full disk stays full).
 type vFaultyWriter struct {
 	buf      bytes.Buffer
@@ -68,7 +68,7 @@ func (w *vFaultyWriter) Write(p []byte) (int, error) {
 	w.calls++
 	if w.failCall > 0 && w.calls >= w.failCall {
 		if w.short && w.calls == w.failCall {
-			n := len(p) / 2
+			n := len(p) * 3 / 4
 			w.buf.Write(p[:n])
 			w.writes = append(w.writes, n)
 			return n, io.ErrShortWrite
